@@ -1,7 +1,8 @@
 SPECIFICATION TraceSpec
 CONSTANTS Widths = {} MaxH = 8 MaxOwn = 100 LimbDom = {0} IdWidths = {}
+  StreamWidths = {}
   MsgDom <- CMsgDom TextDom <- CTextDom
 INVARIANTS TypeOK Refines
-PROPERTIES SendsRight Final Accepted RefusedAfter RejectKeeps DefaultOnRelease ArmFrame IdTiers
+PROPERTIES SendsRight Final Accepted RefusedAfter RejectKeeps DefaultOnRelease ArmFrame IdTiers StreamOnce
 POSTCONDITION TraceAccepted
 CHECK_DEADLOCK FALSE
